@@ -338,6 +338,37 @@ func variants(thorough bool) []variant {
 	add("replay", "whole-handshake-of-other-connection", func(e *env, b, ob, of []byte) ([]byte, uint16, string) {
 		return append([]byte(nil), of...), 0, ""
 	})
+	// a handshake the registered key really signed - for another connection, some time ago or
+	// post-dated: however old or young it claims to be, it proves nothing about this connection
+	for _, off := range []int64{-31, -61, -3600, -86400 * 365, 31, 61, 3600, 86400 * 365} {
+		off := off
+		for _, abs := range []bool{false, true} {
+			abs := abs
+			if abs && off != -31 && off != 31 {
+				continue
+			}
+			name := fmt.Sprintf("binding-of-other-connection-signed-at-now%+ds", off)
+			if abs {
+				name = fmt.Sprintf("binding-of-other-connection-signed-at-epoch%+d", off)
+			}
+			add("replay", name, func(e *env, b, ob, of []byte) ([]byte, uint16, string) {
+				h := validHandshake(e.ids[0], ob)
+				h.Timestamp = now().Unix() + off
+				if abs {
+					h.Timestamp = off
+				}
+				netlib.SignHandshake(&h, e.ids[0].key())
+				return frame(h), 0, ""
+			})
+		}
+		add("binding", fmt.Sprintf("binding-flip-resigned-at-now%+ds", off), func(e *env, b, ob, of []byte) ([]byte, uint16, string) {
+			h := validHandshake(e.ids[0], b)
+			h.TLSBinding[0] ^= 1
+			h.Timestamp = now().Unix() + off
+			netlib.SignHandshake(&h, e.ids[0].key())
+			return frame(h), 0, ""
+		})
+	}
 	for _, f := range []string{"domain", "binding", "identity", "signature", "all"} {
 		f := f
 		add("empty", "empty-"+f, func(e *env, b, ob, of []byte) ([]byte, uint16, string) {
